@@ -22,7 +22,7 @@ def units(tier, seed):
     if tier == "quick":
         out += [{"stage": "pdag", "p": 5, "codes": c} for c in split_list(_g.sparse_codes(5, 3, (1, 2, 3)), 8)]
     else:
-        out += [{"stage": "pdag", "p": 5, "codes": c} for c in split_list(_g.sparse_codes(5, 5, (1, 2, 3)), 64)]
+        out += _g.pdag_units("pdag5", 5, 512)          # every 5-node PDAG with acyclic directed part (765,664), 0/1 int
         out += _g.dag_units("wdag", 5, 64)
     # wide graphs (p = 10, node indices >= 8): every PDAG with <= 2 edges and targeted colliders
     out += [{"stage": "pdag", "p": _g.WIDE_P, "codes": c} for c in split_list(_g.wide_sparse_codes("pdag"), 16)]
@@ -169,6 +169,8 @@ def run_unit(unit):
         return acc.out()
     p = unit["p"]
     labs = ("pdag", "pdagf", "pdagF") if unit["stage"] == "pdag" else ("neg", "cancel", "generic", "int")
+    if unit["stage"] == "pdag5":
+        labs = ("pdag",)
     if p > 5:
         labs = ("pdag",)
     codes = unit["codes"] if "codes" in unit else range(unit["lo"], unit["hi"])
@@ -214,6 +216,6 @@ def describe(tier, seed):
                 "undirected_edges, directed_edges, edge_weights, vstructures, moral_graph, degrees, is_complete, and induced_subgraph / is_clique "
                 "for every node subset; non-trivial: >= 2 edges",
         "exhaustive": True,
-        "bounds": {"p_exhaustive": 4, "p_dags_weighted": 5 if tier == "thorough" else 4},
+        "bounds": {"p_exhaustive": 5 if tier == "thorough" else 4, "p_dags_weighted": 5 if tier == "thorough" else 4},
         "assumptions": ["weighted undirected edges are outside the quantifier (weights only on DAG matrices)"],
     }
